@@ -109,3 +109,8 @@ package auth
 //@ abstract call LoggerWithField pure
 //@ abstract call registerAPI pure
 //@ call OpenFile#1 assert [C19] name == pwdPath(a)
+
+//@ func (*Auth).passwordFile
+//@ props C19
+//@ requires [C19] a != nil && a.config != nil
+//@ ensures [C19] result == pwdPath(a)
